@@ -141,6 +141,15 @@ class Translator:
             if (lname, kind) not in lean_params:
                 lean_params.append((lname, kind))
         spec.lean_params = lean_params
+        # static default values of the Python parameters (used by user_call for omitted arguments)
+        spec.defaults = {}
+        pos_args = self.fn.args.args
+        pairs = list(zip(pos_args[len(pos_args) - len(self.fn.args.defaults):], self.fn.args.defaults))
+        pairs += [(a, d) for a, d in zip(self.fn.args.kwonlyargs, self.fn.args.kw_defaults) if d is not None]
+        for a, d in pairs:
+            sv = self.static_value(d, {})
+            if sv is not None and (lean_name(a.arg), sv[0]) in lean_params:
+                spec.defaults[lean_name(a.arg)] = sv[1]
         body = list(self.fn.body)
         if body and isinstance(body[0], ast.Expr) and isinstance(body[0].value, ast.Constant):
             body = body[1:]
@@ -473,6 +482,21 @@ class Translator:
             if name == "abs" and len(args) == 1:
                 p, t, k = self.expr(args[0], env)
                 return p, f"((Int.natAbs {t} : Nat) : Int)", "int"
+            if name == "ceil" and len(args) == 1 and isinstance(args[0], ast.BinOp) \
+                    and isinstance(args[0].op, ast.Div):
+                # math.ceil(i / 2**k): `/` is CPython's correctly rounded int/int true division (a
+                # double), then ceil of that double -- modelled by Btc.PyFloat.ceilTrueDivPow2
+                import math
+                if getattr(self.mod, "ceil", None) is not math.ceil:
+                    self.bad(e, "ceil is not math.ceil")
+                p, t, k = self.expr(args[0].left, env)
+                self.check_kind(k, "int", e)
+                rv = self.static_value(args[0].right, env)
+                if rv is None or rv[0] != "int" or rv[2] <= 0 or rv[2] & (rv[2] - 1):
+                    self.bad(e, "true division by something that is not a positive power-of-two constant")
+                self.fallible = True
+                tv = self.fresh()
+                return p + [f"let {tv} ← Btc.PyFloat.ceilTrueDivPow2 {t} {rv[2].bit_length() - 1}"], tv, "int"
             if name == "divmod" and len(args) == 2:
                 p1, a, _ = self.expr(args[0], env)
                 p2, b, _ = self.expr(args[1], env)
@@ -560,6 +584,13 @@ class Translator:
             p, t, k = self.expr(a, env)
             pre += p
             terms.append(t)
+        if len(terms) < len(callee.lean_params):
+            # trailing parameters left to their Python defaults (static ones, recorded by translate())
+            dflt = getattr(callee, "defaults", None) or {}
+            for n, _k in callee.lean_params[len(terms):]:
+                if n not in dflt:
+                    break
+                terms.append(dflt[n])
         if len(terms) != len(callee.lean_params):
             self.bad(e, "arity differs from translated callee")
         qual = f"{callee.ns}.{callee.lean}" if callee.ns else callee.lean
